@@ -87,6 +87,13 @@ def expr_cases(tier):
             for a3 in small[:4]:
                 for X in (("i",), ("j",), ("i", "j"), ("k",)):
                     out.append(_red(plus, _prod(times, [_leaf(a1, 1, b), ("B", plus, _leaf(a2, 2, b), _leaf(a3, 3, b))]), X))
+        # S4: a reduced sub-term used twice (a DAG: both occurrences are the same lazily built object)
+        for a1, a2 in itertools.product(small[1:], small):
+            for X1 in (("i",), ("j",), ("j", "k")):
+                s_ = _red(plus, _leaf(a1, 1, b), X1)
+                for X2 in (("j",), ("i",), ("k",), ("i", "k")):
+                    out.append(_red(plus, _prod(times, [s_, s_, _leaf(a2, 2, b)]), X2))
+                    out.append(_prod(times, [s_, _red(plus, _prod(times, [s_, _leaf(a2, 2, b)]), X2)]))
         if b:
             continue
         # free real parameter on one operand; substitution wrapper
